@@ -804,6 +804,23 @@ class Interp:
                         if isinstance(pv, Top): return pv
                         ev.payload_cache[('Some', '0')] = pv
                     return ev
+                if first.path == 'core::result::Result' and all(v.variant in ('Ok', 'Err') for v in vs):
+                    # Ok on some paths, Err on others (a private helper written with `?`): a Result that is Ok under the
+                    # disjunction of the Ok-paths; the error payload only travels to the caller and is kept opaque
+                    cond = FALSE; rest = TRUE; pay = []
+                    for c, v in vals:
+                        here = b_and(rest, c)
+                        if v.variant == 'Ok': cond = b_or(cond, here); pay.append((c, v.fields['0']))
+                        rest = b_and(rest, bnot(c))
+                    ev = EnumV(first.path, None, sym=('a', self.fresh_name('resjoin')), ty=first.ty)
+                    ev.some_cond = cond; ev.ok_variant = 'Ok'
+                    if pay:
+                        pay[-1] = (TRUE, pay[-1][1])
+                        pv = join(pay)
+                        if isinstance(pv, Top): return pv
+                        ev.payload_cache[('Ok', '0')] = pv
+                    ev.payload_cache[('Err', '0')] = ('a', self.fresh_name('err'))
+                    return ev
                 return self.top('join of different enum variants of ' + first.path)
             if all(isinstance(v, TupleV) for v in vs) and all(len(v.items) == len(first.items) for v in vs):
                 return TupleV([join([(c, v.items[i]) for c, v in vals]) for i in range(len(first.items))])
@@ -1074,7 +1091,7 @@ class Interp:
                     sym.ENUM_VARIANTS[v.sym] = len(names_)
                     # a two-variant enum has one test: the second variant is the negation of the first
                     if len(names_) == 2 and pat['variant'] == names_[1]: c = bnot(('isvar', v.sym, names_[0]))
-                if getattr(v, 'some_cond', None) is not None: c = v.some_cond if pat['variant'] in ('Some', 'Ok') else bnot(v.some_cond)
+                if getattr(v, 'some_cond', None) is not None: c = v.some_cond if pat['variant'] in ('Some', 'Ok', 'Continue') else bnot(v.some_cond)
                 for s in pat['subs']:
                     if s['pat'].get('k') == 'Wild': continue
                     sc = self.matches(s['pat'], self.enum_payload(v, pat['variant'], s['field']))
